@@ -82,8 +82,9 @@ func (r *faultReader) Seek(off int64, whence int) (int64, error) {
 type faultWriter struct {
 	K     int
 	Shape int
-	n     int
-	buf   bytes.Buffer
+	n       int
+	tripped bool
+	buf     bytes.Buffer
 }
 
 func (w *faultWriter) Write(p []byte) (int, error) {
@@ -94,6 +95,16 @@ func (w *faultWriter) Write(p []byte) (int, error) {
 	}
 	if w.Shape == 1 {
 		return 0, errFault
+	}
+	if w.Shape == 2 {
+		// transient fault: exactly one Write fails (nothing accepted), later ones succeed again
+		if !w.tripped {
+			w.tripped = true
+			return 0, errFault
+		}
+		w.n += len(p)
+		w.buf.Write(p)
+		return len(p), nil
 	}
 	fit := w.K - w.n
 	w.n += fit
@@ -418,7 +429,7 @@ func run(c *core.Ctx) {
 				if stride == 0 && !(k < 8 || k%128 < 2 || k > L-8) {
 					continue
 				}
-				for shape := 0; shape < 2; shape++ {
+				for shape := 0; shape < 3; shape++ {
 					if !c.Mine() {
 						continue
 					}
@@ -494,7 +505,7 @@ func replay(sub string, raw json.RawMessage) (string, bool) {
 func init() {
 	core.Register(&core.Prop{
 		ID: "C18", Level: "fault_enumeration",
-		Rule: "reads: for every corpus document and EVERY offset k in 0..len (TTML: up to the end of the root element) the stream delivers k bytes and then fails with a sentinel error, in two shapes ((0,err) on the next call; the last bytes together with err) and under whole-buffer and 7-byte (thorough: 1,7,188,1024-byte) deliveries; oracle: a reader that reached the fault returns a non-nil error; over-long lines 65535..2^20 at three positions in srt/vtt/ssa: error or complete result; writes: for every parsed corpus document x every writer x every k in 0..len(output)-1 a destination that accepts k bytes then fails in two shapes; oracle: non-nil error; fault-free run hands the complete output to the destination; file helpers: missing file, directory, missing parent, path under a regular file x every extension; distinct = (document, offset, shape, delivery)",
+		Rule: "reads: for every corpus document and EVERY offset k in 0..len (TTML: up to the end of the root element) the stream delivers k bytes and then fails with a sentinel error, in two shapes ((0,err) on the next call; the last bytes together with err) and under whole-buffer and 7-byte (thorough: 1,7,188,1024-byte) deliveries; oracle: a reader that reached the fault returns a non-nil error; over-long lines 65535..2^20 at three positions in srt/vtt/ssa: error or complete result; writes: for every parsed corpus document x every writer x every k in 0..len(output)-1 a destination that accepts k bytes then fails in three shapes (partial acceptance, rejection, a transient fault of exactly one Write call); oracle: non-nil error; fault-free run hands the complete output to the destination; file helpers: missing file, directory, missing parent, path under a regular file x every extension; distinct = (document, offset, shape, delivery)",
 		Scope: map[core.Tier]string{
 			core.Quick:    "all corpus documents (hand-made + /repo/testdata) x every read offset x 2 shapes x 2 deliveries; 45 over-long-line documents; writes: every offset for hand-made documents and same-format testdata, block-structured offsets for cross-format testdata conversions; 42 file-helper cases",
 			core.Thorough: "reads with 5 deliveries and, for documents <=2000 bytes, every fault offset under every single-split delivery (len^2/2 executions per document); writes at every offset for every document x writer pair",
